@@ -361,11 +361,12 @@ def wrap_line(line: str) -> str:
     Wraps long lines according to SHELXL syntax with = at end and space characters before the next line.
     The wrapping will only be at whitespace, not inside words.
     """
-    maxlen = 79
-    if len(line) < maxlen:
-        line = ''.join(line)
+    maxlen = 80  # SHELXL reads 80 columns
+    if len(line) <= maxlen:
         return line
-    line = textwrap.wrap(line, maxlen, subsequent_indent='  ', drop_whitespace=False, replace_whitespace=False)
+    # Every piece but the last gets ' =' appended and every continuation line a blank in front (see the join below),
+    # therefore the pieces themselves must not be longer than maxlen - 3:
+    line = textwrap.wrap(line, maxlen - 3, subsequent_indent='  ', drop_whitespace=False, replace_whitespace=False)
     if len(line) > 1:
         newline = []
         for n, ln in enumerate(line):
